@@ -20,3 +20,9 @@ func (t *Miner) VerifPackBlock(ctx xctx.XContext, height int64, now time.Time, c
 func (t *Miner) VerifMining(ctx xctx.XContext) error {
 	return t.mining(ctx)
 }
+
+// VerifTruncateForMiner exposes the consensus-requested rollback (state walk to the target, then ledger truncation)
+// to the verification harness (build tag verif).
+func (t *Miner) VerifTruncateForMiner(ctx xctx.XContext, target []byte) error {
+	return t.truncateForMiner(ctx, target)
+}
